@@ -319,10 +319,12 @@ func regexpNext(sb *strings.Builder, sl *stringLexer, mode Mode) error {
 				switch c = sl.next(); {
 				case c == '\x00':
 					continue // handled by the case above
-				case c == '-':
+				case c == '-', c == ':':
 					// regexp.QuoteMeta does not escape '-', which would
-					// form a range inside a bracket expression.
-					bsb.WriteString(`\-`)
+					// form a range inside a bracket expression,
+					// nor ':', which would begin a class after a literal '['.
+					bsb.WriteByte('\\')
+					bsb.WriteRune(c)
 				case c > utf8.RuneSelf:
 					bsb.WriteRune(c)
 				default:
